@@ -73,6 +73,10 @@ def generate(rng, n, tier):
     for cls in QNAMES:
         for kind in ("field", "arith", "function"):
             yield {"cls": cls, "kind": kind, "shape": 0, "positions": ["setop_groupby"], "alias": "al"}
+    # an aliased selected term also named in DISTINCT ON / LIMIT BY (PostgreSQL, ClickHouse): defined once, in the select list
+    for cls in ("postgresql", "clickhouse"):
+        for kind in ("field", "arith", "function", "case"):
+            yield {"cls": cls, "kind": kind, "shape": 0, "positions": ["dialect_clause"], "alias": "al"}
     # a star select removes (or blocks) the aliased column: GROUP BY / ORDER BY must then refer to the column, not the alias
     for cls in QNAMES:
         for variant in range(4):
@@ -129,6 +133,10 @@ def build(case):
                  ".select(e, fn.Sum(t.x).as_('s')).groupby(e)"][case.get("variant", 0)]
         lines.append("q = %s.from_(t)%s" % (qn, chain))
         return "\n".join(lines)
+    if pos == ["dialect_clause"]:
+        tail = ".limit_by(1, e)" if case["cls"] == "clickhouse" else ""
+        lines.append("q = %s.from_(t).distinct_on(e).select(e, t.b)%s" % (qn, tail))
+        return "\n".join(lines)
     if pos == ["setop_groupby"]:
         lines.append("q = %s.from_(t).select(e, fn.Sum(t.x).as_('s')).groupby(e).union_all("
                      "%s.from_(u).select(u.a.as_(%r), fn.Sum(u.x).as_('s')).groupby(u.a.as_(%r)))" % (qn, qn, case["alias"], case["alias"]))
@@ -168,6 +176,8 @@ def examine(case):
         return examine_same_name(dict(case, positions=pos))
     if pos == ["setop_groupby"]:
         return examine_setop_groupby(dict(case, positions=pos))
+    if pos == ["dialect_clause"]:
+        return examine_dialect_clause(dict(case, positions=pos))
     selected = any(p in pos for p in ("select", "groupby_sel", "orderby_sel"))
     if selected:
         pos = [p for p in pos if p not in ("groupby_unsel", "orderby_unsel")] + \
@@ -335,6 +345,33 @@ def examine_setop(case):
                                  "what": "alias %s quoted %r, the %s alias convention is %r | %s"
                                          % ("reference in ORDER BY" if i == 2 else "definition", t.quote, cls, aq, text)})
             break
+    return res
+
+
+def examine_dialect_clause(case):
+    """DISTINCT ON(<aliased term>) / LIMIT n BY (<aliased term>): the alias is defined once, where the term is selected"""
+    res = Result()
+    src = build(case)
+    case["recipe"] = src
+    q = ns.ex(src)["q"]
+    text = str(q)
+    res.nontrivial = True
+    res.key = struct_hash(["dialect-clause", case["kind"], case["cls"]])
+    res.tags = ["kind=" + case["kind"], "cls=" + case["cls"], "pos=dialect_clause"]
+    try:
+        res.requests.append(({"op": "render", "ctx": describe.d_ctx({"dialect": q.dialect}), "term": describe.describe(q)},
+                             {"sql": text}, "str(statement)"))
+    except Unsupported as ex:
+        res.skipped = str(ex)[:40]
+    try:
+        toks = sqlspec.lex(text, ident_quotes='"`')
+    except sqlspec.LexError as ex:
+        res.findings.append({"sig": {"kind": "lex", "term": case["kind"]}, "what": "unlexable: %s | %s" % (ex, text)})
+        return res
+    occ = [t for t in toks if t.kind == "id" and t.val == case["alias"]]
+    if len(occ) != 1:
+        res.findings.append({"sig": {"kind": "alias-count", "term": case["kind"], "where": "dialect-clause"},
+                             "what": "alias occurs %d times, expected its one definition in the select list | %s" % (len(occ), text)})
     return res
 
 
